@@ -61,28 +61,28 @@ var properties = map[string]Property{
 	},
 	"C02": {
 		Level:       "other",
-		Rules:       []string{"P-RECOVER", "P-PANICTYPE", "P-ERRCHECK", "P-MEMO", "P-SCT", "ST-UNIFORM", "ST-BALANCE", "ST-TYPES", "ST-FRAMES", "TV-WF", "TV-CATCHALL", "TV-ENGINE", "R-LOCK", "R-RESET", "N-WALK", "N-ENTRY", "G-IMPORTS"},
+		Rules:       []string{"P-RECOVER", "P-PANICTYPE", "P-ERRCHECK", "P-MEMO", "P-SCT", "ST-UNIFORM", "ST-BALANCE", "ST-TYPES", "ST-FRAMES", "TV-WF", "TV-CATCHALL", "TV-ENGINE", "R-LOCK", "R-RESET", "N-WALK", "N-ENTRY", "G-IMPORTS", "P-SLICEBOUND"},
 		Explanation: "Decided (large structural part): (i) Parse registers, directly after taking the lock, a deferred closure that calls recover() unconditionally, stores a recovered error into the named error result and writes no other result; every explicit panic in parser code carries one of the four documented types; conversion errors (strconv, regexp, json) panic with a documented type or are propagated; (ii) the value stack is typed by abstract interpretation of the grammar that the generated matcher actually runs (reconstructed by the decompiler, so the result does not depend on the published grammar): every action has one stack effect on all non-panicking paths (implicit defaults of exhaustive type switches are discharged from the producer types of the switched slot), every rule has one net effect, no derivation pops an empty stack or fails an unchecked assertion, frame save/load are paired and never index an empty list, and the start rule leaves the stack empty; the stack is empty at the start of every Parse (R-RESET); (iii) the grammar is well-formed (no left recursion / nullable repetition), the start rule is total, the parser is initialised without options (memoisation on), and hand-written recursion descends on the tree. Not decided: bounded time quantitatively, out-of-memory / stack depth for pathological nesting, bounds checks inside the generated matcher (rely on the end-symbol sentinel appended by reset: compared as boilerplate), the few index expressions in hand-written helpers (varBlockSet[1], literal[0], text[0:1]) which are listed as assumed.",
 		Assumptions: []string{"assumed obligations: varBlockSet[1] in the regexp callback (the pattern has one group), literal[0] (literals are built as one-element slices), text[0:1] in the negation action (the capture is never empty)"},
 	},
 	"C16": {
 		Level:       "other",
-		Rules:       []string{"N-KEYFLOW", "TV-IDENT", "U-BYTES", "R-GLOBALS", "U-DECODE", "W-QUOTES", "G-IMPORTS"},
+		Rules:       []string{"N-KEYFLOW", "TV-IDENT", "U-BYTES", "R-GLOBALS", "U-DECODE", "W-QUOTES", "G-IMPORTS", "P-SLICEBOUND"},
 		Explanation: "Decided (structural part): the key of every member lookup during evaluation is the stored member name of a single-name step or a key of the object itself (no conversion, concatenation, slicing or call result on the way), and the constructor stores the name it is given verbatim; the identifier rules the running parser implements (character classes, escape alternatives) are those of the published grammar; the hand-written text transducers do not mix byte and character units (no byte-wise copy driven by a rune-wise range); the unescape routines consult no mutable package-level state. Not decided: that the three unescape routines invert JSON-style escaping for every string (a string-transducer equivalence).",
 	},
 	"C17": {
 		Level:       "translation_validation",
-		Rules:       []string{"TV-RULES", "TV-ACTIONS", "TV-WF", "TV-CATCHALL", "TV-ENGINE", "P-RESTRICT", "P-ERRCHECK", "P-PANICTYPE", "U-INDEX", "U-RUNELEN", "N-GETSET", "N-VGSUM", "N-ENTRY", "G-IMPORTS"},
+		Rules:       []string{"TV-RULES", "TV-ACTIONS", "TV-WF", "TV-CATCHALL", "TV-ENGINE", "P-RESTRICT", "P-ERRCHECK", "P-PANICTYPE", "U-INDEX", "U-RUNELEN", "N-GETSET", "N-VGSUM", "N-ENTRY", "G-IMPORTS", "N-VGFLAG"},
 		Explanation: "Translation validation of the generated packrat parser against the published grammar: each of the grammar's rules is decompiled from the goto-template code of its rule function or inlined copies and shown equivalent after normalisation (literals to rune sequences, classes to interval sets, e+ to e e*, `-switch` choices under FIRST-set side conditions); every action body in Execute equals the grammar's action as Go syntax; the grammar-independent engine is the generator's boilerplate; the start rule is total and its catch-all captures the rest after the longest path prefix. Plus: every documented semantic restriction is enforced where the construct is built; the reported position is a character index taken from the token tree and is never used to slice a byte string. Not decided: that strconv / regexp accept what the prose calls 'valid for Go' (they are the definition).",
 	},
 	"C18": {
 		Level:       "other",
-		Rules:       []string{"W-SPACE", "W-CAPTURE", "N-NUMCONV", "ST-FRAMES", "ST-BALANCE", "ST-TYPES", "R-GLOBALS", "U-DECODE", "W-QUOTES", "G-IMPORTS"},
+		Rules:       []string{"W-SPACE", "W-CAPTURE", "N-NUMCONV", "ST-FRAMES", "ST-BALANCE", "ST-TYPES", "R-GLOBALS", "U-DECODE", "W-QUOTES", "G-IMPORTS", "P-SLICEBOUND"},
 		Explanation: "Decided (structural part): on the grammar the generated parser actually runs (reconstructed by the decompiler), optional blanks are accepted on the stated side(s) of every occurrence of `[`, `]`, `,`, `:`, the seven comparison tokens, `||`, `&&`, `!`, `?(`, `(`, `)` and around a whole path; no capture whose text becomes a number, name, function name or regular expression can contain optional blanks; integers and numbers are converted in base 10 / as 64-bit floats from the unmodified text (so `+` and leading zeros are harmless); the text conversions consult no mutable package-level state; every spelling the grammar derives — in particular a path starting with a bracket instead of `$` — leaves the action value stack well-typed and balanced, so no spelling fails with an internal error. Not decided: quote-style equivalence and `.x` vs `['x']` beyond 'same constructor', `$`-omission behaviour.",
 	},
 	"C03": {
 		Level:       "other",
-		Rules:       []string{"P-POST-NONEMPTY", "P-RTERR", "P-PANICTYPE", "P-ASSERT", "P-NILGUARD", "P-IFACE-EQ", "V-VALIDATED", "V-ACCEPT", "V-TWO-CURRENT", "V-BOOL", "L-CLASS", "P-SCT", "O-SEQ", "I-OVERFLOW", "I-RANGE", "I-BUF", "I-PROGRESS", "R-ITER-STABLE", "N-ENTRY", "P-NILRET", "G-IMPORTS"},
+		Rules:       []string{"P-POST-NONEMPTY", "P-RTERR", "P-PANICTYPE", "P-ASSERT", "P-NILGUARD", "P-IFACE-EQ", "V-VALIDATED", "V-ACCEPT", "V-TWO-CURRENT", "V-BOOL", "L-CLASS", "P-SCT", "O-SEQ", "I-OVERFLOW", "I-RANGE", "I-BUF", "I-PROGRESS", "R-ITER-STABLE", "N-ENTRY", "P-NILRET", "G-IMPORTS", "N-ERRWIRE"},
 		Explanation: "Decided (structural part): (i) every return of a retrieve-family function is a fresh error value, the result of a step on the same sink, a variable proven non-nil, or nil on a path where the sink is known non-empty (must-analysis over appends and len(result)>0 edges), so success is never empty and every result[0] read follows a successful step; (ii) only the three documented runtime error types are converted to the runtime-error interface, each implements error, and ErrorFunctionFailed is built only under a non-nil error of a user-function call; (iii) no explicit panic in evaluation code, reflect.TypeOf(x) dereferenced only under x != nil, every unchecked assertion is a pool element, a runtime error asserted to error, or a validated comparator operand, and every interface comparison has a nil / comparable-concrete operand or validated operands; (iv) recursion cycles descend on the tree and loops are counted/range/worklist loops. Also decided: the logical nodes index a verdict list member by member only on paths where it is known not to be a one-element list and read X[0] only under len(X)==1 (V-BOOL); the right operand is read out of its list after validation succeeded (V-VALIDATED); a comparison between two per-member operands is rejected at parse time for every comparator (V-TWO-CURRENT); no loop walks a list that steps called inside it can reach and overwrite (R-ITER-STABLE). every verdict list a query returns has length 1 or the member count (L-CLASS, inductive over the query family), and the filter reads result[0] only where the length differs from the member count. Not decided: time bounds beyond termination. Also decided (v): subscript arithmetic cannot overflow, produced indices lie in [0, length-1], buffer writes are in range and subscript loops terminate (zone abstract interpretation, see C11).",
 		Assumptions: []string{"the sorted key list of an object has as many entries as the object (shown by O-MAPRANGE under C07: resliced to len(map), one key stored per iteration)"},
 	},
@@ -93,12 +93,12 @@ var properties = map[string]Property{
 	},
 	"C09": {
 		Level:       "other",
-		Rules:       []string{"V-OPS", "V-WIRE", "V-PREC", "V-SINGLE-RIGHT", "V-LITERAL", "V-VALIDATED", "V-INPUT-PURE", "V-BOOL", "L-CLASS", "V-SELECT", "V-TWO-CURRENT", "N-GETSET", "G-IMPORTS"},
+		Rules:       []string{"V-OPS", "V-WIRE", "V-PREC", "V-SINGLE-RIGHT", "V-LITERAL", "V-VALIDATED", "V-INPUT-PURE", "V-BOOL", "L-CLASS", "V-SELECT", "V-TWO-CURRENT", "N-GETSET", "G-IMPORTS", "N-PRESENCE"},
 		Explanation: "Decided (structural part): each ordering builder realises one operator on every path — straight operands with its own comparator, exchanged operands with the mirror comparator — and the four operators are each realised by exactly one builder; every comparator's loop keeps exactly the elements for which `element OP right` holds and blanks the others; `!=` is NOT(==) over the same operands in order; no comparison is built with a per-member operand on the right of a member-independent one (evaluation reads only right[0]). Also decided (per-node half of the Boolean-algebra clause): a symbolic execution of the AND / OR / NOT nodes compares, for every path and every path through the merge loop, the truth value of the returned list at a member with the truth table of the operator the grammar wires the node to, with the length-1 whole-match convention as path facts (V-BOOL); no query returns or writes the member list it was given, so the operands of one operator see the same members (V-INPUT-PURE); a comparison of two per-member operands cannot be built (V-TWO-CURRENT). Not decided: the composition over whole filter expressions as a relation between query results. Also decided: each comparison / logical token of the grammar the generated parser runs runs the builder of its own operator with (left, right) in source order, and `||` binds looser than `&&`, looser than comparison / parentheses / `!`.",
 	},
 	"C10": {
 		Level:       "other",
-		Rules:       []string{"V-ACCEPT", "V-LITERAL", "V-VALIDATED", "V-SINGLE-RIGHT", "G-IMPORTS"},
+		Rules:       []string{"V-ACCEPT", "V-LITERAL", "V-VALIDATED", "V-SINGLE-RIGHT", "G-IMPORTS", "N-PRESENCE"},
 		Explanation: "Decided (structural part): every validator keeps exactly one JSON type on all paths (numeric: float64, with json.Number converted on every path), blanks everything else with the absence marker, reports 'found' exactly for kept elements and visits every element; each literal kind (float64, bool, string, nil) selects the direct-equality comparator with the validator keeping that kind, non-literals use reflect.DeepEqual with the permissive validator; ordering and regex comparators assert exactly the type their embedded validator keeps, after skipping the marker; the comparator call is dominated by successful validation of both operand lists. Not decided: which operand ends up on the right when both are non-member operands (the live `$.a == 1` vs `1 == $.a` json.Number discrepancy) and DeepEqual's numeric semantics across decodings.",
 	},
 	"C11": {
@@ -119,12 +119,12 @@ var properties = map[string]Property{
 	},
 	"C14": {
 		Level:       "other",
-		Rules:       []string{"N-FUNCALL", "N-FORWARD", "P-RTERR", "O-POOL", "B-CHAIN", "P-RESTRICT", "N-WALK", "N-GETSET", "N-HEAD", "N-VGSUM", "V-PARAM-ALWAYS", "N-APPLY", "G-IMPORTS"},
+		Rules:       []string{"N-FUNCALL", "N-FORWARD", "P-RTERR", "O-POOL", "B-CHAIN", "P-RESTRICT", "N-WALK", "N-GETSET", "N-HEAD", "N-VGSUM", "V-PARAM-ALWAYS", "N-APPLY", "G-IMPORTS", "N-VGFLAG", "N-CTOR", "N-ERRWIRE"},
 		Explanation: "Decided (structural part): a function node calls its user function at exactly one site, outside loops; the filter function receives the node's current value; the aggregate receives the list of its private pooled sink, or element 0 as an array only under the parameter's value-group test being false and a successful checked assertion; the function's result is what is forwarded; ErrorFunctionFailed is built only when that call returned an error; the chain builder keeps its link target on the step just processed (so a step after an aggregate is linked behind the aggregate). Not decided: that the value-group flag is correct for the chain (the live `$.a.*.f()` defect), . Also decided: function names are looked up in the filter table first, then the aggregate table, else ErrorFunctionNotFound.",
 	},
 	"C15": {
 		Level:       "other",
-		Rules:       []string{"N-KIND", "P-NILGUARD", "P-RTERR", "N-DEEPEST", "N-WALK", "N-GETSET", "R-ERR-PURE", "N-DELEGATE", "G-IMPORTS"},
+		Rules:       []string{"N-KIND", "P-NILGUARD", "P-RTERR", "N-DEEPEST", "N-WALK", "N-GETSET", "R-ERR-PURE", "N-DELEGATE", "G-IMPORTS", "N-CTOR", "N-ERRWIRE"},
 		Explanation: "Decided (structural part): every type-mismatch error is built under failed type tests of the node's current value, its expected-kind text is in one-to-one correspondence with the set of container kinds the node navigates, its found text is a constant for nil and reflect.TypeOf(current).String() of that same value under a nil guard, and it references the raising node's own descriptor; inside fan-out loops the surviving error is chosen only by the deepest-error helper. Not decided: which of several branch errors is reported (depends on text lengths / traversal order).",
 	},
 	"C20": {
